@@ -71,7 +71,7 @@ type vcTree struct {
 	Entries []vcEntry `json:"entries"`
 }
 
-var vcNames = []string{"a", "b.txt", "c d", "e=f", "g.tar.gz", "h", "lib.so", "z_"}
+var vcNames = []string{"a", "b.txt", "c d", "e=f", "g.tar.gz", "h", "lib.so", "z_", "sub/n.bin", "sub/deep/m"}
 
 func genTree(r *verifsim.Rand, tag string) vcTree {
 	var t vcTree
@@ -559,7 +559,16 @@ func scenarioC12Model(t *testing.T, root string, seed uint64, tier string) vcRes
 					outs = []string{"a"}
 				}
 				tg := vcTarget("co2", outs)
-				wipe(env.outDir(tg))
+				if model[k] != nil && r.Intn(2) == 0 {
+					// the out dir is not empty: it holds another version of the same outputs (an edit,
+					// build, revert, build history); a hit must replace it exactly
+					other := variantTree(*model[k], r)
+					wipe(env.outDir(tg))
+					writeTree(env.outDir(tg), other)
+					res.Stats["retrieves_over_dirty_outdir"]++
+				} else {
+					wipe(env.outDir(tg))
+				}
 				var hit bool
 				s.RunTasks([]verifsim.TaskSpec{{ID: "r", Proc: "P", Fn: func() { hit = c.Retrieve(tg, keys[k], outs) }}})
 				ops = append(ops, fmt.Sprintf("retrieve k%d -> %v", k, hit))
@@ -635,6 +644,21 @@ func genC12c(seed uint64) c12cParams {
 		p.Procs[len(p.Procs)-1] += "R"
 	}
 	return p
+}
+
+// variantTree returns another version of a tree: longer contents, and extra files in directories.
+func variantTree(t vcTree, r *verifsim.Rand) vcTree {
+	n := vcTree{Outs: t.Outs}
+	for _, e := range t.Entries {
+		if e.Kind == "F" {
+			e.Content = e.Content + strings.Repeat(" longer", 1+r.Intn(200))
+		}
+		n.Entries = append(n.Entries, e)
+		if e.Kind == "D" && r.Intn(2) == 0 {
+			n.Entries = append(n.Entries, vcEntry{Path: e.Path + "/only_in_other_version", Kind: "F", Content: "stale"})
+		}
+	}
+	return n
 }
 
 // retag returns the same shape with different file contents.
